@@ -23,7 +23,7 @@ ASSUMPTIONS = [
     "only set commands are sent (other commands: C12); value requests from nodes are part of the traffic (their reply is a set line too)",
 ]
 DELETABLE = ("ops",)
-ASPECTS = frozenset({"writes", "sleepflag"})  # which nodes are known to be sleeping is part of this property's vocabulary
+ASPECTS = frozenset({"writes", "sleepflag", "sendwrites", "flush"})  # which nodes are known to be sleeping is part of this property's vocabulary
 
 
 def budgets(tier: str) -> dict:
@@ -42,6 +42,11 @@ def _ops(version: str):
         lambda n, c, t, v, a, b: ["send", [n, c, 1, a, t, v], b],
         node, child, vtype, value, st.sampled_from((0, 0, 1)), st.sampled_from((None, None, None, None, True, False)),
     )
+    # ... and what else an application sends to the same nodes: value requests for the same child/type, internal commands
+    send_other = st.one_of(
+        st.builds(lambda n, c, t, b: ["send", [n, c, 2, 0, t, ""], b], node, child, vtype, st.sampled_from((None, None, True, False))),
+        st.builds(lambda n, t, b: ["send", [n, 255, 3, 0, t, ""], b], node, st.sampled_from((13, 18)), st.sampled_from((None, None, False))),
+    )
     hb = st.builds(lambda n, p: ["rx", f"{n};255;3;0;22;{p}\n"], node, st.sampled_from(("0", "7", "123")))
     pre = st.builds(lambda n: ["rx", f"{n};255;3;0;32;500\n"], node)
     wake = st.one_of(pre, pre, pre, hb) if version == "2.2" else st.one_of(hb, hb, hb, pre)
@@ -54,11 +59,11 @@ def _ops(version: str):
         st.builds(lambda n: ["rx", f"{n};255;3;0;33;\n"], node),
         st.builds(lambda n, t: ["rx", f"{n};255;0;0;{t};2.0\n"], node, st.sampled_from((17, 18))),
         st.builds(lambda n, c: ["rx", f"{n};{c};0;0;3;relay\n"], node, child),
-        st.sampled_from((["rx", "0;255;3;0;9;log\n"], ["rx", "0;255;3;0;2;2.2.0\n"], ["rx", "0;255;3;0;2;2.0.1\n"], ["rx", "junk\n"], ["session"], ["session"], ["save"], ["reload"],
+        st.sampled_from((["rx", "0;255;3;0;9;log\n"], ["rx", "0;255;3;0;2;2.2.0\n"], ["rx", "0;255;3;0;2;2.0.1\n"], ["rx", "junk\n"], ["session"], ["session"], ["save"], ["reload"], ["read_error", "read"], ["read_error", "failed"], ["tick", 86400],
                          ["rx", "0;255;3;0;14;Gateway startup complete.\n"])),
     )
     incoming = gen.with_ack(st.builds(lambda n, c, t, v: f"{n};{c};1;0;{t};{v}\n", node, child, vtype, value)).map(lambda l: ["rx", l])
-    free = st.lists(gen.weighted((4, send), (2, wake), (2, incoming), (1, other)), min_size=8, max_size=30)
+    free = st.lists(gen.weighted((8, send), (4, wake), (4, incoming), (2, other), (1, send_other)), min_size=8, max_size=30)
 
     @st.composite
     def episodes(draw):
@@ -131,7 +136,8 @@ def enumerate_cases(tier: str):
                     ops = [["send", [11, 1, 1, 0, 3, value], None], ["send", [1, 2, 1, 0, 3, value], None]]
                     ops += [["rx", l + "\n"] for l in line.rstrip("\n").split("\n")] + [["rx", wake], ["session"], ["rx", wake]]
                     yield {"version": version, "registry": registry, "ops": ops, "listen_mode": mode}
-                for event in (["save"], ["reload"], ["session"]):
+                for event in (["save"], ["reload"], ["session"], ["read_error", "read"], ["read_error", "failed"], ["tick", 86400], ["send", [11, 1, 2, 0, 3, ""], None], ["send", [11, 1, 2, 1, 3, ""], True], ["send", [11, 2, 2, 0, 3, ""], None],
+                              ["send", [11, 255, 3, 0, 13, ""], None], ["send", [11, 255, 3, 0, 18, ""], None], ["send", [1, 2, 2, 0, 3, ""], None]):
                     ops = [["send", [11, 1, 1, 0, 3, value], None], ["send", [1, 2, 1, 0, 3, value], None], event, ["rx", wake], ["rx", wake]]
                     yield {"version": version, "registry": registry, "ops": ops, "listen_mode": mode}
     # the gateway's version (and with it the protocol module) changes between the send and the wake
